@@ -49,4 +49,20 @@ def obligations(tier):
                   encodes=['recognizers_date_time.date_time.english.time_parser_config:EnglishTimeParserConfiguration.__init__']))
     obs.append(Ob('O7.1-api-members', 'fn', L + 'api_members', slices=[dict(x, n=12 if tier == 'quick' else 80) for x in tl], timeout=t,
                   descr='composition check: solver-generated times resolve through recognize_datetime to that time', bounds='12 (thorough 80) z3 models per layout'))
+    zw = ['', '下午', '中午', '晚上', '上午', '凌晨'] + (['午后', '夜里', '夜晚', '夜间', '深夜', '傍晚', '早上', '清晨'] if tier == 'thorough' else [])
+    zs = [{'desc': w, 'form': f} for w in zw for f in (('digit', 'cjk', 'hour', 'half') if tier == 'quick' else ('digit', 'cjk', 'hour', 'half', 'quarter', 'quarter3'))]
+    Z = 'recognizers_date_time.date_time.chinese.'
+    obs.append(Ob('O7.6-chinese-time', 'sx', 'harness.C07zh:h_zh_time', twin='harness.C07zh:t_zh_time', slices=zs, timeout=t,
+                  descr='Chinese clock times: hour/min/sec captures of a real match of the real extractor (values replaced by symbolic digit placeholders) + day-part word -> the hour inside the '
+                        'word\'s window that is congruent to the stated hour modulo 12 (下午12点 is 12, 下午5点 is 17, 晚上12点 is 24 = 00), minutes / seconds / half / quarters exact, TIMEX = value',
+                  bounds='h 0..24 restricted to the hours the day-part word can describe, m,s 0..59; one slice per day-part word x spelling form (H:MM:SS, H点M分S秒, H点, H点半, quarters in thorough); '
+                         'a 24-hour-clock hour outside the word\'s window (傍晚13点) is finding F49',
+                  encodes=[Z + 'time_parser:ChineseTimeParser.parse', Z + 'time_parser:ChineseTimeParser.handle_digit', Z + 'time_parser:ChineseTimeParser.handle_chinese',
+                           Z + 'time_parser:ChineseTimeParser.pack_time_result', Z + 'base_date_time_extractor:TimeResolutionUtils.add_description',
+                           Z + 'base_date_time_extractor:TimeResolutionUtils.match_to_value'],
+                  stubs=['the DateTimeExtra comes from a real extractor match on a concrete template; only the hour/min/sec capture texts are replaced by placeholders']))
+    obs.append(Ob('O7.6-chinese-api', 'fn', 'harness.C07zh:api_hours', timeout=t,
+                  descr='composition through the public API (small-scope enumeration, not a solver verdict): every hour 0..24 x 14 day-part words x the spellings H点, H:30, H点半 is one time entity over the whole text with the hour of O7.6-chinese-time',
+                  bounds='818 texts', encodes=[Z + 'time_extractor:ChineseTimeExtractor.__init__']))
+    obs.append(Ob('O7.6-witness-f49', 'fn', 'harness.witness:api_witness', slices=[{'w': 'F49'}], timeout=t, finding='F49', descr='API witness of F49 (傍晚13点 -> TIMEX T25, value 00:00:00)'))
     return obs
